@@ -555,6 +555,10 @@ class Session:
             for num, h in list(store.items()):
                 # handles of deleted entities are not used any more (what they do is not covered by any property)
                 if self.uuid.get(num) not in alive:
+                    # kept aside: a client may still hold it, and may ask whether it is a member of its old container
+                    if not hasattr(self, "dead_handles"):
+                        self.dead_handles = {}
+                    self.dead_handles.setdefault(num, h)
                     store.pop(num, None)
                     continue
                 kind = self.meta[num][0]
@@ -608,6 +612,10 @@ class Session:
     def forget(self, alive):
         for num in list(self.handles):
             if num not in alive:
+                # the handle a client may still hold of the deleted entity (only ever asked whether it is a member)
+                if not hasattr(self, "dead_handles"):
+                    self.dead_handles = {}
+                self.dead_handles[num] = self.handles.get(num)
                 self.handles.pop(num, None)
                 self.handles_b.pop(num, None)
 
@@ -940,3 +948,53 @@ def core_is_uuidlike(s):
         return True
     except ValueError:
         return False
+
+
+def project_extras(nf):
+    """
+    The descriptive attributes the entity-graph model does not carry (C02's "complete observable state"): label, unit,
+    calibration, element type, extent and dimension descriptors of arrays; units and columns of data frames; position,
+    extent and units of tags; reference / repository of sections; unit, uncertainty, data type, reference, dependency,
+    value origin of properties.  Compared with itself across close + reopen.
+    """
+    def fl(x):
+        return None if x is None else [float(v) for v in x]
+
+    def dim(d):
+        kind = d.dimension_type.value
+        out = {"kind": kind, "label": _safe(lambda: d.label)}
+        if kind == "sample":
+            out.update(unit=_safe(lambda: d.unit), interval=_safe(lambda: d.sampling_interval), offset=_safe(lambda: d.offset))
+        elif kind == "range":
+            out.update(unit=_safe(lambda: d.unit), ticks=_safe(lambda: fl(d.ticks)))
+        else:
+            out.update(labels=_safe(lambda: list(d.labels)))
+        return out
+
+    def sec(s):
+        return {"name": _safe(lambda: s.name), "reference": _safe(lambda: s.reference), "repository": _safe(lambda: s.repository),
+                "props": _safe(lambda: [{"name": p.name, "unit": _safe(lambda p=p: p.unit), "uncertainty": _safe(lambda p=p: p.uncertainty),
+                                         "dtype": _safe(lambda p=p: str(p.data_type)), "reference": _safe(lambda p=p: p.reference),
+                                         "dependency": _safe(lambda p=p: p.dependency),
+                                         "dependency_value": _safe(lambda p=p: p.dependency_value),
+                                         "value_origin": _safe(lambda p=p: p.value_origin)} for p in s.props]),
+                "sections": _safe(lambda: [sec(x) for x in s.sections])}
+    out = {"blocks": [], "sections": _safe(lambda: [sec(s) for s in nf.sections])}
+    for b in nf.blocks:
+        bd = {"name": b.name, "arrays": [], "frames": [], "tags": [], "mtags": []}
+        for a in b.data_arrays:
+            bd["arrays"].append({"name": a.name, "label": _safe(lambda: a.label), "unit": _safe(lambda: a.unit),
+                                 "coef": _safe(lambda: fl(a.polynom_coefficients)), "origin": _safe(lambda: a.expansion_origin),
+                                 "dtype": _safe(lambda: str(a.dtype)), "shape": _safe(lambda: tuple(a.shape)),
+                                 "dims": _safe(lambda: [dim(d) for d in a.dimensions])})
+        for fr in b.data_frames:
+            bd["frames"].append({"name": fr.name, "units": _safe(lambda: list(fr.units) if fr.units is not None else None),
+                                 "columns": _safe(lambda: [(n, str(t)) for n, t in fr.columns] if fr.columns and len(fr.columns[0]) == 2
+                                                  else [tuple(map(str, c)) for c in fr.columns])})
+        for t in b.tags:
+            bd["tags"].append({"name": t.name, "position": _safe(lambda: fl(t.position)), "extent": _safe(lambda: fl(t.extent)),
+                               "units": _safe(lambda: list(t.units))})
+        for t in b.multi_tags:
+            bd["mtags"].append({"name": t.name, "units": _safe(lambda: list(t.units))})
+        out["blocks"].append(bd)
+    return out
